@@ -1273,6 +1273,19 @@ func (g *Gen) stableComps() map[string]bool {
 	}
 	for i, e := range g.fc.Stable {
 		env := &Env{g: g, st: g.entry, old: g.entry, vars: g.entryParams, pkgPath: g.fn.Pkg.Pkg.Path()}
+		if c, ok := e.(*Call); ok && c.Fun == "elems" && len(c.Args) == 1 {
+			// stable elems(x): the element components of x's element type
+			g.dryFacts++
+			sv := env.eval(c.Args[0])
+			g.dryFacts--
+			if sl, ok := types.Unalias(sv.T).Underlying().(*types.Slice); ok {
+				for _, l := range g.W.shapes.shape(sl.Elem()) {
+					g.stableKeys[g.elemCompKey(sl.Elem(), l.Path)] = true
+				}
+				g.note("elements assumed not to be written by opaque callees: " + g.fc.StableSrc[i])
+				continue
+			}
+		}
 		lv, err := env.evalLV(e)
 		if err != nil || lv.Kind != lvHeap {
 			g.errorf("stable clause %q: %v", g.fc.StableSrc[i], err)
